@@ -743,13 +743,35 @@ theorem decVal_not_arr (ty : UInt8) (s : Bytes) (v : Val) (s' : Bytes) (hty : ty
       obtain ⟨c, s1, _, h⟩ := dbind_ok_inv _ _ _ _ h
       simp at h
 
-/-- what `get_raw_cigar` must answer, given the decoded fields it walks over -/
+/-- the field `get_raw_cigar` stops at: tag `CG` and a `B:I` (UInt32) array value; a `CG` field of
+any other type is walked over like every other field -/
+def isCgI (f : Tag × Val) : Bool :=
+  f.1 == CG && (match f.2 with | .arr .I _ => true | _ => false)
+
+theorem isCgI_arr (tag : Tag) (t : NumTy) (vs : List Int) :
+    isCgI (tag, .arr t vs) = true ↔ tag = CG ∧ t = .I := by
+  cases t <;> simp [isCgI]
+
+theorem isCgI_not_arr (tag : Tag) (v : Val) (h : ∀ t vs, v ≠ .arr t vs) : isCgI (tag, v) = false := by
+  cases v with
+  | arr t vs => exact absurd rfl (h t vs)
+  | char c => simp [isCgI]
+  | num t x => simp [isCgI]
+  | str x => simp [isCgI]
+  | hex x => simp [isCgI]
+
+theorem isCgI_tag (f : Tag × Val) (h : isCgI f = true) : (f.1 == CG) = true := by
+  simp only [isCgI, Bool.and_eq_true] at h
+  exact h.1
+
+/-- what `get_raw_cigar` must answer, given the decoded fields it walks over: the raw bytes of the
+first `CG:B:I` field, `none` if there is none -/
 def cgSpec (fs : List (Tag × Val)) (res : Except Err (Option Bytes)) : Prop :=
-  match fs.find? (fun f => f.1 == CG) with
+  match fs.find? isCgI with
   | none => res = .ok none
-  | some (_, .arr t vs) =>
-    ∃ buf, res = .ok (some buf) ∧ buf.length = vs.length * t.size ∧ chunkVals t buf.length buf = vs
-  | some _ => True
+  | some f =>
+    ∃ vs buf, f.2 = .arr .I vs ∧ res = .ok (some buf) ∧ buf.length = vs.length * 4 ∧
+      chunkVals .I buf.length buf = vs
 
 theorem getRawCigar_of_decData (fuel : Nat) (s : Bytes) (acc out : List (Tag × Val))
     (h : decData fuel s acc = .ok out) :
@@ -791,44 +813,43 @@ theorem getRawCigar_of_decData (fuel : Nat) (s : Bytes) (acc out : List (Tag × 
             have htk : takeN (n * t.size) s4 = .ok (s4.take (n * t.size), s') := by
               simp [takeN, l, e]
             have hstep : getRawCigar (fuel + 1) s =
-                (if (a, b) = CG then .ok (some (s4.take (n * t.size))) else getRawCigar fuel s') := by
+                (if (a, b) = CG ∧ t = .I then .ok (some (s4.take (n * t.size)))
+                 else getRawCigar fuel s') := by
               simp only [getRawCigar, hne, Bool.false_eq_true, if_false, h1, h2, if_true, hu1, hoc, hu4, htk]
-            by_cases hcg : (a, b) = CG
+            by_cases hcg : (a, b) = CG ∧ t = .I
             · rw [hstep, if_pos hcg]
-              have hlen : (s4.take (n * t.size)).length = n * t.size := by
-                rw [List.length_take]; omega
+              obtain ⟨hcg1, rfl⟩ := hcg
+              have hlen : (s4.take (n * NumTy.size .I)).length = n * 4 := by
+                rw [List.length_take]; simp only [NumTy.size] at l ⊢; omega
               have hvl : vs.length = n := decN_length _ _ _ _ _ hdn
-              have : List.find? (fun f => f.1 == CG) (((a, b), Val.arr t vs) :: fs)
-                  = some ((a, b), Val.arr t vs) := by
-                simp [hcg]
+              have : List.find? isCgI (((a, b), Val.arr .I vs) :: fs) = some ((a, b), Val.arr .I vs) := by
+                rw [List.find?_cons_of_pos]
+                exact (isCgI_arr _ _ _).2 ⟨hcg1, rfl⟩
               simp only [cgSpec, this]
-              exact ⟨_, rfl, by rw [hlen, hvl], by rw [hlen]; exact c⟩
+              refine ⟨vs, _, rfl, rfl, by rw [hlen, hvl], ?_⟩
+              rw [hlen]
+              simpa only [NumTy.size] using c
             · rw [hstep, if_neg hcg]
-              have : List.find? (fun f => f.1 == CG) (((a, b), Val.arr t vs) :: fs)
-                  = List.find? (fun f => f.1 == CG) fs := by
-                simp [hcg]
+              have hno : isCgI ((a, b), Val.arr t vs) = false := by
+                cases hh : isCgI ((a, b), Val.arr t vs) with
+                | false => rfl
+                | true => exact absurd ((isCgI_arr _ _ _).1 hh) hcg
+              have : List.find? isCgI (((a, b), Val.arr t vs) :: fs) = List.find? isCgI fs := by
+                rw [List.find?_cons_of_neg]
+                simp [hno]
               simp only [cgSpec, this]
               exact hspec
           · have hlv := lazyVal_of_decVal ty s2 v s' h3
             have hstep : getRawCigar (fuel + 1) s = getRawCigar fuel s' := by
               simp only [getRawCigar, hne, Bool.false_eq_true, if_false, h1, h2, h66, hlv]
             rw [hstep]
-            by_cases hcg : (a, b) = CG
-            · have : List.find? (fun f => f.1 == CG) (((a, b), v) :: fs) = some ((a, b), v) := by
-                simp [hcg]
-              simp only [cgSpec, this]
-              have hna := decVal_not_arr ty s2 v s' h66 h3
-              cases v with
-              | arr t vs => exact absurd rfl (hna t vs)
-              | char c => trivial
-              | num t x => trivial
-              | str x => trivial
-              | hex x => trivial
-            · have : List.find? (fun f => f.1 == CG) (((a, b), v) :: fs)
-                  = List.find? (fun f => f.1 == CG) fs := by
-                simp [hcg]
-              simp only [cgSpec, this]
-              exact hspec
+            have hno : isCgI ((a, b), v) = false :=
+              isCgI_not_arr _ _ (decVal_not_arr ty s2 v s' h66 h3)
+            have : List.find? isCgI (((a, b), v) :: fs) = List.find? isCgI fs := by
+              rw [List.find?_cons_of_neg]
+              simp [hno]
+            simp only [cgSpec, this]
+            exact hspec
 
 /-! ### the lazy CIGAR and data against the eager decode -/
 
@@ -854,6 +875,30 @@ theorem findIdx_some_find {α : Type} (p : α → Bool) (l : List α) (i : Nat)
       obtain ⟨j, hj, rfl⟩ := h
       obtain ⟨x, hx1, hx2⟩ := ih j hj
       exact ⟨x, by simpa using hx1, by simp [hp, hx2]⟩
+
+/-- no field with the weaker property, so none with the stronger one -/
+theorem find_none_of_imp {α : Type} (p q : α → Bool) (l : List α) (hq : ∀ x, q x = true → p x = true)
+    (h : l.find? p = none) : l.find? q = none := by
+  rw [List.find?_eq_none] at h ⊢
+  intro x hx hqx
+  exact h x hx (hq x hqx)
+
+/-- the first field with the weaker property has the stronger one: it is also the first with the
+stronger one -/
+theorem find_some_of_imp {α : Type} (p q : α → Bool) (l : List α) (x : α)
+    (hq : ∀ y, q y = true → p y = true) (h : l.find? p = some x) (hx : q x = true) :
+    l.find? q = some x := by
+  induction l with
+  | nil => simp at h
+  | cons a t ih =>
+    by_cases hpa : p a = true
+    · rw [List.find?_cons_of_pos hpa, Option.some.injEq] at h
+      subst h
+      rw [List.find?_cons_of_pos hx]
+    · rw [List.find?_cons_of_neg hpa] at h
+      have hqa : ¬ q a = true := fun hh => hpa (hq a hh)
+      rw [List.find?_cons_of_neg hqa]
+      exact ih h
 
 theorem fromU_false (n u : Nat) : fromU false n u = (u : Int) := by simp [fromU]
 
@@ -937,7 +982,7 @@ theorem lazyCigar_and_data (b : Bytes) (r0 r : Rec) (hp : RawParts b r0) (hr : r
     | none =>
       simp only [hfi, Except.ok.injEq] at hr
       subst hr
-      have hfind := findIdx_none_find _ _ hfi
+      have hfind := find_none_of_imp _ isCgI _ isCgI_tag (findIdx_none_find _ _ hfi)
       simp only [cgSpec, hfind] at hspec
       rw [hspec] at hcb
       simp only at hcb
@@ -959,13 +1004,18 @@ theorem lazyCigar_and_data (b : Bytes) (r0 r : Rec) (hp : RawParts b r0) (hr : r
           | ok ops =>
             simp only [hops, Except.ok.injEq] at hr
             subst hr
-            simp only [cgSpec, hx2] at hspec
-            obtain ⟨buf, hbuf, hblen, hchunks⟩ := hspec
+            have hfind : r0.data.find? isCgI = some (tag, Val.arr .I vs) :=
+              find_some_of_imp _ isCgI _ _ isCgI_tag hx2
+                ((isCgI_arr _ _ _).2 ⟨by simpa using List.find?_some hx2, rfl⟩)
+            simp only [cgSpec, hfind] at hspec
+            obtain ⟨vs', buf, hvs, hbuf, hblen, hchunks⟩ := hspec
+            simp only [Val.arr.injEq, true_and] at hvs
+            subst hvs
             rw [hbuf] at hcb
             simp only at hcb
             rw [← hchunks] at hops
-            have hlo := lazyOps_of_chunks vs.length buf buf.length ops (by rw [hblen]; rfl)
-              (by rw [hblen]; simp [NumTy.size]; omega) hops
+            have hlo := lazyOps_of_chunks vs.length buf buf.length ops hblen
+              (by rw [hblen]; omega) hops
             refine ⟨by simp only [lazyCigar, hcb, hlo], Or.inr ⟨⟨hph, by simp [hfi]⟩, ?_, i, rfl, rfl⟩⟩
             simp only [lazyData, lazyRawData_eq b hl, hcb, hlf]
         | c => simp at hr
@@ -1065,13 +1115,37 @@ theorem lazyOps_ne_panic (n : Nat) (s : Bytes) (hl : s.length = n * 4) : lazyOps
     | [_, _], hl => simp at hl; omega
     | [_, _, _], hl => simp at hl; omega
 
-/-- After `validate`, every slice a lazy accessor takes is inside the buffer. The only remaining
-panic is `Cigar::iter`'s `unreachable!()` when the `CG` field used as CIGAR is an array whose byte
-length is not a multiple of 4 (e.g. `CG:B,C` with three elements). -/
+theorem takeN_ok_length (n : Nat) (s buf r : Bytes) (h : takeN n s = .ok (buf, r)) :
+    buf.length = n := by
+  unfold takeN at h
+  split at h
+  · simp only [Except.ok.injEq, Prod.mk.injEq] at h
+    obtain ⟨rfl, _⟩ := h
+    rw [List.length_take]; omega
+  · simp at h
+
+/-- FOR ANY BYTES: what `get_raw_cigar` returns is the payload of a `B:I` array, `4 * n` bytes -/
+theorem getRawCigar_some_len (fuel : Nat) (s buf : Bytes)
+    (h : getRawCigar fuel s = .ok (some buf)) : ∃ n, buf.length = n * 4 := by
+  fun_induction getRawCigar fuel s
+  all_goals first
+    | (simp at h; done)
+    | (rename_i ih; exact ih h)
+    | skip
+  next n _ _ buf' _ htk hcg _ =>
+    simp only [Except.ok.injEq, Option.some.injEq] at h
+    subst h
+    obtain ⟨_, rfl⟩ := hcg
+    exact ⟨n, takeN_ok_length _ _ _ _ htk⟩
+
+/-- After `validate`, every slice a lazy accessor takes is inside the buffer, and `Cigar::iter`
+never reaches its `unreachable!()`: the bytes it iterates are either the `4 * n_cigar_op` bytes of
+the CIGAR slot or the payload of a `CG:B:I` array (`4 * count` bytes) — `get_raw_cigar` walks over a
+`CG` field of any other type (fix "bam record cigar panicked on a CG tag that is not a u32 array";
+before it, `CG:B,C` with three elements was taken as the CIGAR and panicked). -/
 theorem lazy_in_bounds_of_len (b : Bytes) (hl : lDataStart b ≤ b.length) :
     lazyName b ≠ .panic ∧ lazySeq b ≠ .panic ∧ lazyQual b ≠ .panic ∧ lazyRawData b ≠ .panic ∧
-    lazyCigarBytes b ≠ .panic ∧ lazyData b ≠ .panic ∧
-    (lazyCigar b = .panic → ∃ buf, lazyCigarBytes b = .ok (buf, true) ∧ buf.length % 4 ≠ 0) := by
+    lazyCigarBytes b ≠ .panic ∧ lazyData b ≠ .panic ∧ lazyCigar b ≠ .panic := by
   have hl' := hl
   unfold lDataStart at hl'
   have hrd := lazyRawData_eq b hl
@@ -1081,13 +1155,16 @@ theorem lazy_in_bounds_of_len (b : Bytes) (hl : lDataStart b ≤ b.length) :
     congr 2
     omega
   have hsl := lCigarSrc_length b hl
-  have hcb : (∃ buf, lazyCigarBytes b = .ok (buf, true)) ∨ lazyCigarBytes b = .ok (lCigarSrc b, false) := by
+  have hcb : (∃ buf n, lazyCigarBytes b = .ok (buf, true) ∧ buf.length = n * 4) ∨
+      lazyCigarBytes b = .ok (lCigarSrc b, false) := by
     unfold lazyCigarBytes
     simp only [hsrc, hrd]
     split
     · split
       · split
-        · next buf h => exact Or.inl ⟨_, rfl⟩
+        · next buf h =>
+          obtain ⟨n, hn⟩ := getRawCigar_some_len _ _ _ h
+          exact Or.inl ⟨_, n, rfl, hn⟩
         · exact Or.inr rfl
       · exact Or.inr rfl
     · exact Or.inr rfl
@@ -1109,22 +1186,19 @@ theorem lazy_in_bounds_of_len (b : Bytes) (hl : lDataStart b ≤ b.length) :
     simp only
     split <;> simp
   · rw [hrd]; simp
-  · rcases hcb with ⟨buf, h⟩ | h <;> rw [h] <;> simp
+  · rcases hcb with ⟨buf, n, h, _⟩ | h <;> rw [h] <;> simp
   · unfold lazyData
     rw [hrd]
     simp only
-    rcases hcb with ⟨buf, h⟩ | h <;> rw [h] <;> simp
+    rcases hcb with ⟨buf, n, h, _⟩ | h <;> rw [h] <;> simp
   · intro hp
-    rcases hcb with ⟨buf, h⟩ | h
-    · refine ⟨buf, h, ?_⟩
-      intro hm
-      have : buf.length = (buf.length / 4) * 4 := by omega
-      have := lazyOps_ne_panic (buf.length / 4) buf this
+    rcases hcb with ⟨buf, n, h, hn⟩ | h
+    · have := lazyOps_ne_panic n buf hn
       simp only [lazyCigar, h] at hp
       exact this hp
     · have := lazyOps_ne_panic (lOpCount b) (lCigarSrc b) hsl
       simp only [lazyCigar, h] at hp
-      exact absurd hp this
+      exact this hp
 
 /-! ## `resolve` only touches the CIGAR and the data -/
 
